@@ -66,5 +66,6 @@ func fname(fn *ssa.Function) string { return core.FuncName(fn) }
 
 // NewCtx creates a check context.
 func NewCtx(p *core.Program, r *core.Report, tier string) *Ctx {
+	initAtomAliases(p.Funcs)
 	return &Ctx{P: p, R: r, Tier: tier, guarded: map[string]string{}}
 }
